@@ -529,4 +529,156 @@ theorem runStmts_session (w : Session.World) (ss : List Session.Stmt) (h : ∀ s
       simp only
       exact ih hr env' (some v)
 
+/-! ### fragments: quantity operators (C03/C04) and array sum (C12) inside the unified evaluator -/
+
+/-- the result of `Num.binop` is already simplified -/
+theorem binop_idem {op : BinOp} {x y r : Num} (h : binop op x y = .ok r) : simplify r = .ok r := by
+  unfold binop at h
+  simp only [] at h
+  split at h <;> exact bind_simplify_idem h
+
+def tQuantity : Nat := Gen.Registry.typeNames.idxOf "Quantity"
+def tArray : Nat := Gen.Registry.typeNames.idxOf "Array"
+
+def chQ (desc : String) (code : BodyCode) : Chosen := ⟨[tQuantity, tQuantity], none, desc, some code⟩
+
+/-- **Table fact (quantities).**  On two quantities `dispatch` reaches `register_quantities_op`'s `f`
+    with the closure cells (operator name, vector combiner, wrap flag) the model body is built from. -/
+theorem qty_table :
+    (resolveDesc "+" [cQty, cQty] []).toOption = some (chQ "+|(Quantity, Quantity)|ka.functions.register_quantities_op.<locals>.f['+',None,True]" (.qtyQty "+" .same true)) ∧
+    (resolveDesc "-" [cQty, cQty] []).toOption = some (chQ "-|(Quantity, Quantity)|ka.functions.register_quantities_op.<locals>.f['-',None,True]" (.qtyQty "-" .same true)) ∧
+    (resolveDesc "*" [cQty, cQty] []).toOption = some (chQ "*|(Quantity, Quantity)|ka.functions.register_quantities_op.<locals>.f['*',ka.functions.<lambda:register_quantities_op(\"*\", lambda qv1, qv2: qv1*qv2)>,True]" (.qtyQty "*" .mul true)) ∧
+    (resolveDesc "/" [cQty, cQty] []).toOption = some (chQ "/|(Quantity, Quantity)|ka.functions.register_quantities_op.<locals>.f['/',ka.functions.<lambda:register_quantities_op(\"/\", lambda qv1, qv2: qv1/qv2)>,True]" (.qtyQty "/" .div true)) ∧
+    (resolveDesc "<" [cQty, cQty] []).toOption = some (chQ "<|(Quantity, Quantity)|ka.functions.register_quantities_op.<locals>.f['<',None,False]" (.qtyQty "<" .same false)) ∧
+    (resolveDesc "<=" [cQty, cQty] []).toOption = some (chQ "<=|(Quantity, Quantity)|ka.functions.register_quantities_op.<locals>.f['<=',None,False]" (.qtyQty "<=" .same false)) ∧
+    (resolveDesc "==" [cQty, cQty] []).toOption = some (chQ "==|(Quantity, Quantity)|ka.functions.register_quantities_op.<locals>.f['==',None,False]" (.qtyQty "==" .same false)) ∧
+    (resolveDesc "!=" [cQty, cQty] []).toOption = some (chQ "!=|(Quantity, Quantity)|ka.functions.register_quantities_op.<locals>.f['!=',None,False]" (.qtyQty "!=" .same false)) ∧
+    (resolveDesc "sum" [cArr] []).toOption = some ⟨[tArray], none, "sum|(Array)|ka.functions.array_sum", some .arrSum⟩ := by
+  decide +kernel
+
+/-- the registered name of an operator of the quantity fragment -/
+def qopName : Qty.QOp → String
+  | .add => "+" | .sub => "-" | .mul => "*" | .div => "/" | .lt => "<" | .le => "<=" | .eq => "==" | .ne => "!="
+
+/-- `dispatch(name, (x, y))` on two plain numbers is the fragment's `numOp` -/
+theorem dispatch_numOp (n : Nat) (op : Qty.QOp) (x y : Num) :
+    dispatchV (n + 1) (qopName op) [.num x, .num y] [] = liftN (Qty.numOp op x y) := by
+  have t := num_table2 _ (numClass_mem x) _ (numClass_mem y)
+  cases op
+  · exact dispatch_add n x y
+  · exact dispatch_sub n x y
+  · exact dispatch_mul n x y
+  · exact dispatch_div n x y
+  · rw [qopName, dispatch_cmp n "<" _ x y t.2.2.2.2.2.2.1]; simp only [cmpByName, b2v, Qty.numOp, liftN]
+  · rw [qopName, dispatch_cmp n "<=" _ x y t.2.2.2.2.2.2.2.1]; simp only [cmpByName, b2v, Qty.numOp, liftN]
+  · rw [qopName, dispatch_cmp n "==" _ x y t.2.2.2.2.2.2.2.2.1]; simp only [cmpByName, b2v, Qty.numOp, liftN]
+  · rw [qopName, dispatch_cmp n "!=" _ x y t.2.2.2.2.2.2.2.2.2]
+    simp only [cmpByName, b2v, Qty.numOp, liftN]
+    cases cmpEq x y <;> rfl
+
+/-- results of `numOp` are simplified -/
+theorem numOp_idem {op : Qty.QOp} {x y r : Num} (h : Qty.numOp op x y = .ok r) : simplify r = .ok r := by
+  cases op <;> simp only [Qty.numOp] at h
+  · exact binop_idem h
+  · exact binop_idem h
+  · exact binop_idem h
+  · exact binop_idem h
+  all_goals (injection h with h; subst h; rfl)
+
+theorem coerceArgs_qty2 (t1 t2 : Nat) (va : Option Nat) (x y : Num) (dx dy : List Int) :
+    coerceArgs [t1, t2] va [.qty x dx, .qty y dy] = .ok [.qty x dx, .qty y dy] := by
+  cases va <;> simp [coerceArgs, coerceTo, bind, Except.bind]
+
+/-- the rule / wrap flag of the body registered for an operator of the quantity fragment -/
+def qopRule : Qty.QOp → QvRule
+  | .mul => .mul | .div => .div | _ => .same
+def qopWrap : Qty.QOp → Bool
+  | .add | .sub | .mul | .div => true | _ => false
+
+theorem qtyF_eq (n : Nat) (op : Qty.QOp) (x : Num) (dx : List Int) (y : Num) (dy : List Int) :
+    (do let r ← qtyF (fun nm as => dispatchV (n + 1) nm as []) (qopName op) (qopRule op) (qopWrap op) x dx y dy
+        simplifyVal r)
+      = (liftE (Qty.qtyOp op x dx y dy)).map ofQVal := by
+  have key : rnum (fun nm as => dispatchV (n + 1) nm as []) (qopName op) [x, y] = liftE (Qty.numOp op x y) := by
+    simp only [rnum, List.map, dispatch_numOp n op x y, bind, Except.bind]
+    cases Qty.numOp op x y <;> rfl
+  cases op <;> simp only [qtyF, qopRule, qopWrap, Qty.qtyOp, key]
+  case mul | div =>
+    simp only [pure, Except.pure, bind, Except.bind]
+    cases hm : Qty.numOp _ x y with
+    | error e => rfl
+    | ok m => simp [liftE, simplifyVal, numOp_idem hm, Except.map, ofQVal]
+  all_goals
+    by_cases hd : (dx != dy) = true
+    · simp only [hd, if_true, raise, bind, Except.bind, liftE, Except.map]
+    · simp only [hd, if_false, pure, Except.pure, bind, Except.bind, Bool.false_eq_true]
+      cases hm : Qty.numOp _ x y with
+      | error e => rfl
+      | ok m => simp [liftE, simplifyVal, numOp_idem hm, Except.map, ofQVal]
+
+/-- **quantity operators**: `dispatch` of `+ - * / < <= == !=` on two quantities is `Qty.qtyOp` -/
+theorem dispatch_qtyOp (n : Nat) (op : Qty.QOp) (x : Num) (dx : List Int) (y : Num) (dy : List Int) :
+    dispatchV (n + 2) (qopName op) [.qty x dx, .qty y dy] [] = (liftE (Qty.qtyOp op x dx y dy)).map ofQVal := by
+  obtain ⟨t1, t2, t3, t4, t5, t6, t7, t8, _⟩ := qty_table
+  have step : ∀ desc, (resolveDesc (qopName op) [cQty, cQty] []).toOption
+        = some (chQ desc (.qtyQty (qopName op) (qopRule op) (qopWrap op))) →
+      dispatchV (n + 2) (qopName op) [.qty x dx, .qty y dy] [] = (liftE (Qty.qtyOp op x dx y dy)).map ofQVal := by
+    intro desc h
+    rw [dispatchV_step (c := chQ desc _) (code := .qtyQty (qopName op) (qopRule op) (qopWrap op)) (by simpa [classOf] using h) rfl]
+    simp only [chQ, coerceArgs_qty2, BodyCode.run, bQtyQty]
+    exact qtyF_eq n op x dx y dy
+  cases op
+  · exact step _ t1
+  · exact step _ t2
+  · exact step _ t3
+  · exact step _ t4
+  · exact step _ t5
+  · exact step _ t6
+  · exact step _ t7
+  · exact step _ t8
+
+/-- a number that `simplify_number` leaves alone (every value the evaluator stores is one) -/
+def Canon (x : Num) : Prop := simplify x = .ok x
+
+theorem foldl_add (n : Nat) (t : List Num) (a : Num) :
+    (t.map Val.num).foldlM (fun acc e => dispatchV (n + 1) "+" [acc, e] []) (.num a)
+      = liftN (t.foldlM (fun acc e => binop .add acc e) a) := by
+  induction t generalizing a with
+  | nil => rfl
+  | cons h t ih =>
+    simp only [List.map_cons, List.foldlM_cons, dispatch_add n a h]
+    cases binop .add a h with
+    | error e => rfl
+    | ok r => simp only [liftN, bind, Except.bind]; exact ih r
+
+theorem foldlM_add_canon (t : List Num) (a r : Num) (ha : Canon a)
+    (h : t.foldlM (fun acc e => binop .add acc e) a = .ok r) : Canon r := by
+  induction t generalizing a with
+  | nil => simp only [List.foldlM_nil, pure, Except.pure] at h; injection h with h; subst h; exact ha
+  | cons x t ih =>
+    simp only [List.foldlM_cons, bind, Except.bind] at h
+    cases hb : binop .add a x with
+    | error e => simp [hb] at h
+    | ok b => simp only [hb] at h; exact ih b (binop_idem hb) h
+
+/-- **array sum**: `sum` of an array of (stored, hence simplified) numbers is `Arr.arraySum` -/
+theorem dispatch_sum (n : Nat) (xs : List Num) (hc : ∀ x ∈ xs, Canon x) :
+    dispatchV (n + 2) "sum" [.arr (xs.map .num)] [] = liftN (Arr.arraySum xs) := by
+  have t := qty_table.2.2.2.2.2.2.2.2
+  rw [dispatchV_step (c := ⟨[tArray], none, _, some .arrSum⟩) (code := .arrSum) (by simpa [classOf] using t) rfl]
+  have hco : coerceArgs [tArray] none [Val.arr (xs.map .num)] = .ok [Val.arr (xs.map .num)] := by
+    simp [coerceArgs, coerceTo, bind, Except.bind]
+  simp only [hco, BodyCode.run, bind, Except.bind]
+  cases xs with
+  | nil => rfl
+  | cons h t =>
+    simp only [List.map_cons, bArrSum, Arr.arraySum]
+    have hf := foldl_add n t h
+    simp only [hf]
+    cases hr : t.foldlM (fun acc e => binop .add acc e) h with
+    | error e => rfl
+    | ok r =>
+      have hcr : simplify r = .ok r := foldlM_add_canon t h r (hc h (by simp)) hr
+      simp only [liftN, simplifyVal, hcr, liftE, Except.map]
+
 end KaVerif.Eval
